@@ -242,7 +242,7 @@ def gen_cob(rng, stream):
     nb = rng.choice([1, 1, 2, 2, 3, 4])
     pad_lo = min(rng.choice([0, 0, 1, 5, 12]), (hi - lo) // 3)
     pad_hi = min(rng.choice([0, 0, 1, 5, 12]), (hi - lo) // 3)
-    slots = gen_bands_slots(rng, lo + pad_lo, hi - pad_hi, nb, 1)
+    slots = gen_bands_slots(rng, lo + pad_lo, hi - pad_hi, nb, rng.choice([0, 1, 1]))   # 0: bands may touch
     bands = [[REF + a * grid, REF + b * grid] for a, b in slots]
     fmin, fmax = REF + lo * grid, REF + hi * grid
     amps = None
@@ -381,8 +381,7 @@ def oracle_cob(case, obs, ctx):
     cells = obs['cells']
     common = obs['common']
     if len(cells) != n_max - n_min + 1:
-        key = 'touching-bands-overlong' if stream == 'touching' else 'oms_bitmap_len'
-        fails.append((key, f'{len(cells)} cells for slots {n_min}..{n_max} (common range '
+        fails.append(('oms_bitmap_len', f'{len(cells)} cells for slots {n_min}..{n_max} (common range '
                       f'{[[float(a), float(b)] for a, b in common]})'))
         return fails
     if 'exc' in obs:
@@ -1004,7 +1003,6 @@ def generate(ctx):
 
 MATCHERS = {
     'oms-empty-common-range': lambda v: v.get('key') == 'oms-empty-common-range',
-    'touching-bands-overlong': lambda v: v.get('key') == 'touching-bands-overlong',
     'trx-on-line-oms': lambda v: v.get('key') == 'trx-on-line-oms',
     'si-band-outside-network-range': lambda v: v.get('key') == 'si-band-outside-network-range',
 }
@@ -1151,11 +1149,11 @@ def run(ctx):
     ]
     ctx.notes += [
         'theorems build_oms_list_ok / oms_partition are conditional on decidable hypotheses (chain-structured graph, '
-        'sorted slot-separated common range on every line); net_hyps_b evaluates them in Coq on every designed network: '
+        'sorted non-overlapping common range inside the network range on every line); net_hyps_b evaluates them in Coq on every designed network: '
         f"held on {ctx.counters.get('net_theorem_hypotheses_T', 0)} networks, not on "
         f"{ctx.counters.get('net_theorem_hypotheses_F', 0)} (those are judged by oracle and correspondence only)",
         'matchers for open findings (effective only for entries listed as open in known_findings.json): '
-        'oms-empty-common-range, touching-bands-overlong, trx-on-line-oms, si-band-outside-network-range',
+        'oms-empty-common-range, trx-on-line-oms, si-band-outside-network-range',
         'n_freq_roundtrip_float is a finite theorem (n in [-4000, 4000], grid 6.25 GHz) computed with PrimFloat by '
         'vm_compute; Print Assumptions lists the PrimFloat/PrimInt63 kernel primitives it evaluates with',
     ]
